@@ -38,6 +38,10 @@ type Gen struct {
 	Down      []int
 	DownFrom  int64
 	downDrawn bool
+
+	// set by ProposalOptionsPair around its two ProposalCreate draws
+	forceCfg string
+	forceTyp *governance.ProposalType
 }
 
 var (
@@ -879,6 +883,12 @@ func (g *Gen) ProposalCreate() txgen.Tx {
 		cfg = rapid.SampledFrom(ConfigUpdates).Draw(g.T, "cfg")
 	}
 	tags := []string{mtag}
+	if g.forceCfg != "" {
+		typ, cfg = governance.ProposalTypeConfigUpdate, g.forceCfg
+		tags = append(tags, "names-proposal-option")
+	} else if g.forceTyp != nil {
+		typ = *g.forceTyp
+	}
 	if g.pct(g.Strange, "id-sep") {
 		// ids are 64 characters chosen by the sender: the store's own key separator is a legal character
 		b := []byte(id)
@@ -907,6 +917,24 @@ func (g *Gen) ProposalCreate() txgen.Tx {
 	}
 	tx.Note = fmt.Sprintf("%s:%d:%d:%d:%d", id, ui, fundDL, voteDL, int(typ))
 	return g.note(tx)
+}
+
+// ProposalOptionsPair: a configuration proposal that names a proposal option of one proposal type (from small genesis
+// values the group validation refuses every such update, and the creation may fail for other reasons as well), followed
+// by the creation of a proposal of that type: the second one reads the options the first one only looked at.
+func (g *Gen) ProposalOptionsPair() []txgen.Tx {
+	types := []struct {
+		name string
+		typ  governance.ProposalType
+	}{{"general", governance.ProposalTypeGeneral}, {"configUpdate", governance.ProposalTypeConfigUpdate}, {"codeChange", governance.ProposalTypeCodeChange}}
+	t := types[g.Uniform(len(types), "optpair-type")]
+	fields := []string{"passPercentage:60", "passPercentage:99", "initialFunding:2000000000", "fundingGoal:30000000000", "votingDeadline:150001", "fundingDeadline:75001", "passPercentage:0", "initialFunding:0"}
+	g.forceCfg = "propOptions." + t.name + "." + fields[g.Uniform(len(fields), "optpair-field")]
+	a := g.ProposalCreate()
+	g.forceCfg, g.forceTyp = "", &t.typ
+	b := g.ProposalCreate()
+	g.forceTyp = nil
+	return []txgen.Tx{a, b}
 }
 
 func (g *Gen) ProposalFund() txgen.Tx {
